@@ -207,8 +207,17 @@ func (fr *frame) exec(in ssa.Instruction, st *State, reach string) {
 			if pe, isPE := base.(*PtrSliceElem); isPE && pe.Field == "" && pe.ElemT != nil {
 				stT := ptrElem(i.X.Type())
 				f := stT.Underlying().(*types.Struct).Field(i.Field)
-				fr.vals[i] = &PtrSliceElem{Slice: pe.Slice, Idx: pe.Idx, ElemT: pe.ElemT, Field: f.Name(), FieldT: f.Type()}
+				fr.vals[i] = &PtrSliceElem{Slice: pe.Slice, Idx: pe.Idx, Src: pe.Src, ElemT: pe.ElemT, Field: f.Name(), FieldT: f.Type()}
 				return
+			}
+			if pa, isPA := base.(*PtrArrElem); isPA && pa.Field == "" {
+				stT := ptrElem(i.X.Type())
+				if sst, ok := stT.Underlying().(*types.Struct); ok {
+					f := sst.Field(i.Field)
+					e.sortOf(stT)
+					fr.vals[i] = &PtrArrElem{Cell: pa.Cell, Idx: pa.Idx, Field: f.Name(), FieldT: f.Type(), StructT: stT}
+					return
+				}
 			}
 			if pf, isPF := base.(*PtrField); isPF {
 				// nested struct field: only sync primitives are supported
@@ -237,15 +246,15 @@ func (fr *frame) exec(in ssa.Instruction, st *State, reach string) {
 			c, ok := i.Index.(*ssa.Const)
 			if !ok {
 				fc.unsupported("IndexAddr on local array with symbolic index in %s", fr.fn.Name())
-				fr.vals[i] = &PtrArrElem{b, 0}
+				fr.vals[i] = &PtrArrElem{Cell: b, Idx: 0}
 				return
 			}
-			fr.vals[i] = &PtrArrElem{b, int(c.Int64())}
+			fr.vals[i] = &PtrArrElem{Cell: b, Idx: int(c.Int64())}
 		case Term:
 			if isSlc(b.Sort) {
 				idx := fr.term(i.Index)
 				fr.safety("index", fmt.Sprintf("(and (<= 0 %s) (< %s (slen %s)))", idx.S, idx.S, b.S), reach, i.Pos(), "slice index in range")
-				fr.vals[i] = &PtrSliceElem{Slice: b, Idx: idx, ElemT: i.X.Type().Underlying().(*types.Slice).Elem()}
+				fr.vals[i] = &PtrSliceElem{Slice: b, Idx: idx, Src: i.X, ElemT: i.X.Type().Underlying().(*types.Slice).Elem()}
 				return
 			}
 			fc.unsupported("IndexAddr on %s (%s) in %s", i.X.Name(), b.Sort, fr.fn.Name())
@@ -582,7 +591,7 @@ func (fr *frame) execSlice(i *ssa.Slice, st *State, reach string) {
 		}
 		// capacity is not modelled: slicing beyond len is reported (it is legal Go up to cap)
 		fr.safety("slice", fmt.Sprintf("(and (<= 0 %s) (<= %s %s) (<= %s (slen %s)))", lo.S, lo.S, hi.S, hi.S, x.S), reach, i.Pos(), "slice bounds within length (capacity not modelled)")
-		fr.vals[i] = fc.define(i.Name(), Term{fmt.Sprintf("(mkslc (sarr %s) (+ (soff %s) %s) (- %s %s))", x.S, x.S, lo.S, hi.S, lo.S), x.Sort})
+		fr.vals[i] = fc.define(i.Name(), fc.slcSub(x, lo.S, hi.S))
 		return
 	}
 	// pointer to array (e.g. *[48]byte): unsupported
@@ -609,6 +618,15 @@ func (fr *frame) execUnOp(i *ssa.UnOp, st *State, reach string) {
 			}
 			fr.vals[i] = v
 		case *PtrArrElem:
+			if pt.Field != "" {
+				if cur, ok := pt.Cell.Elems[pt.Idx].(Term); ok {
+					fr.vals[i] = Term{fmt.Sprintf("(%s$%s %s)", cur.Sort, pt.Field, cur.S), fc.e.sortOf(pt.FieldT)}
+					return
+				}
+				fc.unsupported("load of a field of a local array element without symbolic value in %s", fr.fn.Name())
+				fr.vals[i] = fc.fresh("undef", fc.e.sortOf(i.Type()))
+				return
+			}
 			fr.vals[i] = pt.Cell.Elems[pt.Idx]
 		case *PtrSliceElem:
 			v := fc.slcAt(pt.Slice, pt.Idx.S)
@@ -681,10 +699,30 @@ func (fr *frame) execStore(i *ssa.Store, st *State, reach string) {
 		fr.frameCheck(st, pt.Arr, pt.Base, reach, i.Pos())
 		fc.heapSet(st, pt.Arr, Term{store(a.S, pt.Base.S, v.S), a.Sort})
 	case *PtrArrElem:
+		if pt.Field != "" {
+			cur, ok := pt.Cell.Elems[pt.Idx].(Term)
+			si := fc.e.structs[typeKey(pt.StructT)]
+			if !ok || si == nil {
+				fc.unsupported("store to a field of a local array element in %s", fr.fn.Name())
+				return
+			}
+			v := fr.term(i.Val)
+			var fs []string
+			for _, f := range si.fields {
+				if f.Name() == pt.Field {
+					fs = append(fs, v.S)
+				} else {
+					fs = append(fs, fmt.Sprintf("(%s$%s %s)", si.name, f.Name(), cur.S))
+				}
+			}
+			pt.Cell.Elems[pt.Idx] = fc.define("elemfield", Term{"(mk" + si.name + " " + strings.Join(fs, " ") + ")", si.name})
+			pt.Cell.Fresh = false
+			return
+		}
 		pt.Cell.Elems[pt.Idx] = fr.val(i.Val)
 		pt.Cell.Fresh = false
 	case *PtrSliceElem:
-		fc.unsupported("in-place store to a slice element in %s (slices are values in this model)", fr.fn.Name())
+		fr.storeSliceElem(i, pt, st, reach)
 	case Term:
 		elemT := ptrElem(i.Addr.Type())
 		if _, isGlobal := i.Addr.(*ssa.Global); !isGlobal {
@@ -831,7 +869,7 @@ func (fr *frame) binop(i *ssa.BinOp, reach string) Val {
 		case token.SUB:
 			return fr.arith(i, "(- "+x.S+" "+y.S+")", reach)
 		case token.MUL:
-			return fr.arith(i, "(* "+x.S+" "+y.S+")", reach)
+			return fr.arith(i, fc.mulTerm(x.S, y.S), reach)
 		case token.QUO:
 			fr.safety("divzero", not(eq(y.S, "0")), reach, i.Pos(), "integer division by zero")
 			// Go truncates toward zero
@@ -948,4 +986,118 @@ func (fr *frame) storeRefNoFrameAny(st *State, ref Term, elemT types.Type, v Ter
 		return
 	}
 	fr.storeRefNoFrame(st, ref, elemT, v)
+}
+
+// storeSliceElem: s[i] = v. Slices are values in this model (backing array, offset, length), so an
+// in-place element store is modelled as an update of the location the slice value was loaded from
+// (`x.f[i] = v`, `(*p)[i] = v`), or - for a slice made in the same basic block - as a rebinding of
+// that value. Other slice values sharing the backing array do not see the write: aliasing of
+// backing arrays is not modelled (listed as an assumption wherever this is used).
+func (fr *frame) storeSliceElem(i *ssa.Store, pt *PtrSliceElem, st *State, reach string) {
+	fc := fr.fc
+	if pt.Src == nil {
+		fc.unsupported("in-place store to a slice element of unknown origin in %s", fr.fn.Name())
+		return
+	}
+	v := fr.term(i.Val)
+	s := pt.Slice
+	if pt.Field != "" {
+		// s[i].f = v: the element with that one field replaced
+		si := fc.e.structs[typeKey(pt.ElemT)]
+		if si == nil {
+			fc.unsupported("in-place store to a field of a slice element of non-struct type in %s", fr.fn.Name())
+			return
+		}
+		cur := fc.slcAt(s, pt.Idx.S)
+		var fs []string
+		for _, f := range si.fields {
+			if f.Name() == pt.Field {
+				fs = append(fs, v.S)
+			} else {
+				fs = append(fs, fmt.Sprintf("(%s$%s %s)", si.name, f.Name(), cur.S))
+			}
+		}
+		v = fc.define("elemfield", Term{"(mk" + si.name + " " + strings.Join(fs, " ") + ")", si.name})
+	}
+	nv := fc.define("elemstore", Term{fmt.Sprintf("(mkslc (store (sarr %s) (+ (soff %s) %s) %s) (soff %s) (slen %s))", s.S, s.S, pt.Idx.S, v.S, s.S, s.S), s.Sort})
+	note := "in-place element store s[i] = v is an update of the location the slice was loaded from; other slice values sharing the backing array do not see it (aliasing of backing arrays is not modelled)"
+	switch src := pt.Src.(type) {
+	case *ssa.UnOp:
+		if src.Op != token.MUL {
+			break
+		}
+		switch at := fr.val(src.X).(type) {
+		case *PtrField:
+			a := fc.heapGet(st, at.Arr, arr(SInt, at.Sort))
+			o := fc.oblig("safety", "safety.slice-store", eq(sel(a.S, at.Base.S), s.S), reach, i.Pos(), nil)
+			o.Src = "the slice header was not replaced between its load and the element store"
+			fr.frameCheck(st, at.Arr, at.Base, reach, i.Pos())
+			fc.heapSet(st, at.Arr, Term{store(a.S, at.Base.S, nv.S), a.Sort})
+			fc.assumes = append(fc.assumes, note)
+			return
+		case Term:
+			elemT := ptrElem(src.X.Type())
+			cur, ok := fr.loadRef(st, at, elemT).(Term)
+			if ok {
+				o := fc.oblig("safety", "safety.slice-store", eq(cur.S, s.S), reach, i.Pos(), nil)
+				o.Src = "the slice header was not replaced between its load and the element store"
+				fr.storeRef(st, at, elemT, nv, reach, i.Pos())
+				fc.assumes = append(fc.assumes, note)
+				return
+			}
+		}
+	case *ssa.MakeSlice:
+		if src.Block() == i.Block() {
+			fr.vals[src] = nv
+			fc.assumes = append(fc.assumes, note)
+			return
+		}
+	}
+	fc.unsupported("in-place store to an element of a slice that is neither loaded from a location nor made in the same block in %s", fr.fn.Name())
+}
+
+// slcSub: s[lo:hi] through a declared function, so that the element view
+// s[lo:hi][k] == s[lo+k] is available to quantifier instantiation (it puts the term s[lo+k] on the table).
+func (fc *FnCtx) slcSub(s Term, lo, hi string) Term {
+	es := sortArgs(s.Sort)[0]
+	name := "slcsub$" + sanitize(es)
+	if !fc.declSet[name] {
+		at := fc.slcAt(Term{"s", s.Sort}, "(+ lo k)") // declares slcat
+		fc.declSet[name] = true
+		fc.decls = append(fc.decls, fmt.Sprintf("(declare-fun %s (%s Int Int) %s)", name, s.Sort, s.Sort))
+		fc.decls = append(fc.decls, fmt.Sprintf("(assert (forall ((s %s) (lo Int) (hi Int)) (! (= (%s s lo hi) (mkslc (sarr s) (+ (soff s) lo) (- hi lo))) :pattern ((%s s lo hi)))))", s.Sort, name, name))
+		sub := fmt.Sprintf("(%s s lo hi)", name)
+		fc.decls = append(fc.decls, fmt.Sprintf("(assert (forall ((s %s) (lo Int) (hi Int) (k Int)) (! (= %s %s) :pattern (%s))))", s.Sort, fc.slcAt(Term{sub, s.Sort}, "k").S, at.S, fc.slcAt(Term{sub, s.Sort}, "k").S))
+	}
+	return Term{fmt.Sprintf("(%s %s %s %s)", name, s.S, lo, hi), s.Sort}
+}
+
+func isNumeral(s string) bool {
+	if s == "" {
+		return false
+	}
+	if strings.HasPrefix(s, "(- ") && strings.HasSuffix(s, ")") {
+		s = s[3 : len(s)-1]
+	}
+	for _, c := range s {
+		if c < '0' || c > '9' {
+			return false
+		}
+	}
+	return true
+}
+
+// mulTerm: a product. A product of two non-constant terms goes through the declared function mul$,
+// defined to be the product: quantifier patterns can then mention it (E-matching on arithmetic
+// terms is unreliable), while the arithmetic solver still sees a multiplication.
+func (fc *FnCtx) mulTerm(a, b string) string {
+	if isNumeral(a) || isNumeral(b) {
+		return "(* " + a + " " + b + ")"
+	}
+	if !fc.declSet["mul$"] {
+		fc.declSet["mul$"] = true
+		fc.decls = append(fc.decls, "(declare-fun mul$ (Int Int) Int)")
+		fc.decls = append(fc.decls, "(assert (forall ((a Int) (b Int)) (! (= (mul$ a b) (* a b)) :pattern ((mul$ a b)))))")
+	}
+	return "(mul$ " + a + " " + b + ")"
 }
